@@ -63,6 +63,9 @@ func genericGuards(r *Run) {
 	if len(spec.FrameScope.Include) > 0 {
 		r.CheckFrame(r.Prop+".F1", r.Prop+"_frame.json", spec.FrameScope, spec.MinFrame)
 	}
+	if r.Prop != "C11" { // pkg/network has no counted loop (it ranges over maps and channels only)
+		r.CheckLoopBounds(r.Prop+".G6", r.Prop+"_loops.json", loopScopes(spec), 1)
+	}
 	r.CheckSelfComparison(r.Prop+".G9", spec.Scope)
 	r.CheckIgnoredTry(r.Prop+".G7", spec.Scope)
 	if r.Prop != "C11" {
